@@ -10,7 +10,9 @@
 (*  1. every item of the scan buffer whose terminal matches at i is put    *)
 (*     into delayed[end] (with complete_lex: for every match length);      *)
 (*  2. every ignored terminal that matches at i carries the WHOLE scan     *)
-(*     buffer, and the completed start item of column i, over to its end   *)
+(*     buffer over to its end; a completed start item is remembered on the *)
+(*     side for that end (since d1dc4d2; before, it was carried inside the *)
+(*     chart)                                                              *)
 (*     (with complete_lex: to every match length - the fix recorded as     *)
 (*     C01 in known_findings.json);                                        *)
 (*  3. column i+1 and the next scan buffer are built from delayed[i+1]:    *)
@@ -26,13 +28,19 @@ Ends(L, text, i, all) ==
   LET es == {e \in (i + 1)..Len(text) : SubSeq(text, i + 1, e) \in L}
   IN IF es = {} \/ all THEN es ELSE {CHOOSE e \in es : \A f \in es : f <= e}
 
-\* st: the Earley state after RunColumn at position i; xs: [delayed]
-XScan(rules, start, langs, ignores, text, complete, igcomplete, st, delayed, i) ==
+\* st: the Earley state after RunColumn at position i; delayed: <<end, item, istoken>>;
+\* roots: <<end>> marks - the start symbol was completed (from offset 0) and only ignored text follows up to `end`.
+\* Since d1dc4d2 the completed start items are NOT carried inside the chart (their parents were advanced already and
+\* travel with the scan buffer; completing them again recorded derivations twice - EarleyForest.tla's NoDuplicate is the
+\* law that broke): they wait on the side and count only if the ignored text runs up to the end of the input.
+XScan(rules, start, langs, ignores, text, complete, igcomplete, st, delayed, roots, i) ==
   LET tokEntries == UNION {{<<e, it, TRUE>> : e \in Ends(langs[Expect(rules, it)], text, i, complete)} : it \in st.toScan}
       startDone == {it \in st.col : IsComplete(rules, it) /\ Lhs(rules, it) = start /\ it[3] = 0}
       \* igcomplete: ignored terminals are tried at every match length too (the code since the C01 fix); FALSE = the pinned behaviour
       igEnds == UNION {Ends(ignores[g], text, i, igcomplete) : g \in DOMAIN ignores}
-      carried == UNION {{<<e, it, FALSE>> : it \in st.toScan \cup startDone} : e \in igEnds}
+      carried == UNION {{<<e, it, FALSE>> : it \in st.toScan} : e \in igEnds}
+      rootsHere == (i \in roots) \/ startDone # {}
+      roots2 == (roots \ {i}) \cup (IF rootsHere THEN igEnds ELSE {})
       d2 == delayed \cup tokEntries \cup carried
       now == {d \in d2 : d[1] = i + 1}
       newItems == {IF d[3] THEN Advance(d[2]) ELSE d[2] : d \in now}
@@ -40,18 +48,19 @@ XScan(rules, start, langs, ignores, text, complete, igcomplete, st, delayed, i) 
       rest == d2 \ now
   IN [st |-> [cols |-> Append(st.cols, st.col), col |-> nextE, work |-> nextE, toScan |-> newItems \ nextE, held |-> {}, i |-> i + 1],
       delayed |-> rest,
-      dead |-> nextE = {} /\ rest = {} /\ (newItems \ nextE) = {}]
+      roots |-> roots2,
+      dead |-> nextE = {} /\ rest = {} /\ (newItems \ nextE) = {} /\ roots2 = {}]
 
 \* whole run: <<"accept">> | <<"chars", i>> | <<"eof">>
-RECURSIVE XRunFrom(_, _, _, _, _, _, _, _, _, _)
-XRunFrom(rules, start, langs, ignores, text, complete, igcomplete, st, delayed, i) ==
+RECURSIVE XRunFrom(_, _, _, _, _, _, _, _, _, _, _)
+XRunFrom(rules, start, langs, ignores, text, complete, igcomplete, st, delayed, roots, i) ==
   LET s1 == RunColumn(rules, st) IN
-  IF i = Len(text) THEN (IF Solutions(rules, start, s1) # {} THEN <<"accept">> ELSE <<"eof">>)
-  ELSE LET x == XScan(rules, start, langs, ignores, text, complete, igcomplete, s1, delayed, i) IN
+  IF i = Len(text) THEN (IF Solutions(rules, start, s1) # {} \/ i \in roots THEN <<"accept">> ELSE <<"eof">>)
+  ELSE LET x == XScan(rules, start, langs, ignores, text, complete, igcomplete, s1, delayed, roots, i) IN
        IF x.dead THEN <<"chars", i>>
-       ELSE XRunFrom(rules, start, langs, ignores, text, complete, igcomplete, x.st, x.delayed, i + 1)
+       ELSE XRunFrom(rules, start, langs, ignores, text, complete, igcomplete, x.st, x.delayed, x.roots, i + 1)
 XRun(rules, start, langs, ignores, text, complete, igcomplete) ==
-  XRunFrom(rules, start, langs, ignores, text, complete, igcomplete, InitState(rules, start), {}, 0)
+  XRunFrom(rules, start, langs, ignores, text, complete, igcomplete, InitState(rules, start), {}, {}, 0)
 
 \* L0 spans out of the same languages
 TSpans(rules, langs, text, all) ==
